@@ -22,7 +22,7 @@ RULE = ("history = event sequence over {key-addressed operation (get, set, delet
         "client_class (each method call is a contact) and real Clients over the fake network (connect/sendall events "
         "grouped per public call are contacts). Bounded-exhaustive: every sequence up to depth 5 (thorough 7) over an "
         "8-symbol alphabet (2 servers; get on each, set_many; three advances; fail/heal of server 0) x all six "
-        "configurations; 'probe trains' - server 0 failing, then every sequence of up to 7 (thorough 9) gaps drawn from {below retry_timeout, above it, above dead_timeout} each followed by an operation, with and without a heal part-way; Hypothesis sequences up to length 40. Observation through public seams only: the contact log "
+        "configurations; 'probe trains' - server 0 failing, then every sequence of up to 7 (thorough 9) gaps drawn from {below retry_timeout, above it, above dead_timeout} each followed by an operation, with and without a heal part-way; 'two outages' - three servers, two of them starting to fail at different instants of a 10-point time grid whose gaps straddle dead_timeout in several ways, traffic on every key at every subset of the remaining instants (one server is evicted while another is being brought back); Hypothesis sequences up to length 40. Observation through public seams only: the contact log "
         "and a hasher passed as hasher= (a RendezvousHash subclass, or a minimal class offering only the documented get_node/add_node/remove_node) that records (rotation at that instant, key, node) for every "
         "routing decision. Oracle: per continuous failing interval of a server, <= 2 contacts in any retry_timeout "
         "window and <= retry_attempts+2 in any dead_timeout window; every routing decision equals the reference "
@@ -426,6 +426,39 @@ def probe_train_cases(tier, seed):
                             yield {"servers": 2, "retry_attempts": ra, "ignore_exc": ie, "backend": "scripted", "recovery_step": 7, "events": ev2}
 
 
+GRID = [0, 30, 50, 61, 90, 120, 122, 150, 182, 185]
+
+
+def two_outage_cases(tier, seed):
+    """three servers, two of them failing at different instants of a time grid whose gaps straddle dead_timeout (60) in
+    several ways, traffic on every key at each chosen subset of the grid instants: overlapping outages, where one server
+    is evicted while another is being brought back"""
+    pts = range(len(GRID))
+    for i in pts:
+        for j in pts:
+            if j <= i:
+                continue
+            rest = [p for p in pts if p not in (i, j)]
+            for mask in range(1 << len(rest)):
+                if tier == "quick" and (mask * 7 + i + j) % 4:
+                    continue
+                chosen = sorted([i, j] + [p for b, p in enumerate(rest) if mask >> b & 1])
+                ev, now = [], 0
+                for p in chosen:
+                    if GRID[p] > now:
+                        ev.append(["adv", GRID[p] - now])
+                        now = GRID[p]
+                    if p == i:
+                        ev.append(["fail", 2, "refused"])
+                    if p == j:
+                        ev.append(["fail", 1, "timeout"])
+                    order = (0, 1, 2) if (mask + p) % 2 else (1, 2, 0)
+                    ev += [["op", "get" if (mask >> 1) % 3 else "set", si] for si in order]
+                ra = (mask + i) % 3 if tier == "thorough" else (0 if (mask + j) % 3 else 1)
+                yield {"servers": 3, "retry_attempts": ra, "ignore_exc": bool((mask + i + j) % 2), "backend": "scripted", "recovery_step": 7,
+                       "events": ev, "hasher": "minimal" if mask % 5 == 0 else "subclass"}
+
+
 def minimise(case, still_fails):
     ev = ddmin_list(case["events"], lambda e: still_fails(dict(case, events=e)))
     return dict(case, events=ev)
@@ -446,6 +479,7 @@ def history_strategy(tier):
 PARTS = [
     Part("exhaustive-depth", "enum", check, cases=exhaustive_cases, exhaustive=True, minimise=minimise, distinct_by_construction=True),
     Part("probe-trains", "enum", check, cases=probe_train_cases, exhaustive=True, minimise=minimise, distinct_by_construction=True),
+    Part("two-outages", "enum", check, cases=two_outage_cases, exhaustive=True, minimise=minimise, distinct_by_construction=True),
     Part("random-histories", "hyp", check, strategy=history_strategy,
          examples={"quick": 150, "thorough": 8000}, shards={"quick": 6, "thorough": 16}),
 ]
